@@ -397,6 +397,10 @@ func LockCheck(c *Ctx, funcs []*ssa.Function, rows []GuardRow, requires []LockRe
 				_ = why
 				continue
 			}
+			if exemptByCallers(c.P, ex, top, a.Type, 2) {
+				c.Count("phase_exempt_accesses", 1)
+				continue
+			}
 			if !a.Write && row.ReadsUnlocked != "" {
 				c.Count("unguarded_reads_by_design", 1)
 				continue
@@ -706,4 +710,29 @@ func isRefLike(t types.Type) bool {
 		return true
 	}
 	return false
+}
+
+// exemptByCallers: an unexported helper that is only ever called (statically, never used as a value) from functions
+// that are exempt for the type acts in their phase: a block extracted from an exempt function stays exempt.
+func exemptByCallers(p *Prog, ex map[string]string, fn *ssa.Function, typ string, depth int) bool {
+	if fn == nil || depth <= 0 || fn.Object() == nil || fn.Object().Exported() || len(p.FuncValueUses(fn)) > 0 {
+		return false
+	}
+	callers := p.Callers(fn)
+	if len(callers) == 0 {
+		return false
+	}
+	for _, call := range callers {
+		caller := call.Parent()
+		for caller.Parent() != nil {
+			caller = caller.Parent()
+		}
+		if _, ok := ex[FuncName(caller)+"|"+typ]; ok {
+			continue
+		}
+		if !exemptByCallers(p, ex, caller, typ, depth-1) {
+			return false
+		}
+	}
+	return true
 }
